@@ -334,6 +334,11 @@ func runFlowDesc(c *ctx) {
 			sw = "1"
 		}
 		c.emit("T fd.pack %s %s %s = %s", hexOrDash([]byte(s)), abs, sw, fdPack(s, swap))
+		if c.rng.chance(30) {
+			// the same text again, in the same and in the other direction: packing is a function of text and direction
+			c.emit("T fd.pack %s %s %s = %s", hexOrDash([]byte(s)), abs, sw, fdPack(s, swap))
+			c.emit("T fd.pack %s %s %s = %s", hexOrDash([]byte(s)), abs, map[bool]string{true: "0", false: "1"}[swap], fdPack(s, !swap))
+		}
 	}
 	// arbitrary ASCII and arbitrary bytes (incl. ':' / non-ASCII: outside the model, only "no fault" is claimed)
 	for i := 0; i < n/10; i++ {
